@@ -50,7 +50,9 @@ Section ABF.
     c_same_step : bool;               (* proxy->total_forces_same_step(), hence f_cv_total_force_current_step *)
     c_subtract : list bool;           (* subtractAppliedForce of each variable *)
     c_hidej : bool;                   (* hideJacobian of the ABF bias (f_cv_hide_Jacobian on each of its variables) *)
-    c_other : list bool               (* another bias that applies forces is attached to the variable *)
+    c_other : list bool;              (* another bias that applies forces is attached to the variable *)
+    c_scaled : bool;                  (* scaledBiasingForce (f_cvb_scale_biasing_force) *)
+    c_sfac : idx -> T                 (* scaledBiasingForceFactorsGrid: a grid with the geometry of the ABF grids *)
   }.
 
   (* f_cv_apply_force of variable k: enabled (through require_feature_children(f_cvb_apply_force, ...)) when
@@ -63,6 +65,7 @@ Section ABF.
     s_sum : idx -> vec;               (* gradients (colvar_grid_gradient::data: minus the summed forces) *)
     s_bin : idx; s_fbin : idx;        (* bin, force_bin *)
     s_fabf : vec;                     (* colvar_forces of the ABF bias (last force it computed) *)
+    s_fprev : vec;                    (* previous_colvar_forces: the force the ABF bias last applied (scaled) *)
     s_ft : vec;                       (* colvar::ft of each variable *)
     s_fold : vec;                     (* colvar::f_old of each variable *)
     s_eng : vec;                      (* engine: force that acted on each variable at the previous step *)
@@ -81,7 +84,8 @@ Section ABF.
 
   Record abf_out := mkOut {
     o_bin : idx;                      (* bin of this step *)
-    o_fabf : vec;                     (* ABF force computed at this step *)
+    o_fabf : vec;                     (* ABF force computed at this step (colvar_forces) *)
+    o_fapp : vec;                     (* ABF force applied at this step: times the scaledBiasingForce factor *)
     o_f : vec;                        (* total force applied by Colvars to each variable (colvar::f) *)
     o_rel : Z; o_cont : bool;         (* step_relative, simulation_continuing at this step *)
     o_tf : vec                        (* colvar::ft_reported *)
@@ -182,11 +186,11 @@ Section ABF.
     && c_update c                                 (* is_enabled(f_cvb_history_dependent) *)
     && ((0 <? rel) || c_same_step c)              (* step_relative() > 0 || total_forces_same_step() *)
     && index_ok c (st_fbin c s i).                (* samples->index_ok(force_bin) *)
-  (* update_system_force *)
+  (* update_system_force: total force minus the force the ABF bias applied at the previous step *)
   Definition st_sysf (c : abf_cfg) (s : abf_state) (i : abf_in) : vec :=
     vbuild (c_nd c) (fun k =>
       if bget (c_subtract c) k || c_same_step c then vget (st_ft c s i) k
-      else nsub O (vget (st_ft c s i) k) (vget (s_fabf s) k)).
+      else nsub O (vget (st_ft c s i) k) (vget (s_fprev s) k)).
   (* gradients->acc_force(force_bin, system_force) *)
   Definition st_cnt (c : abf_cfg) (s : abf_state) (i : abf_in) : idx -> Z :=
     if st_doacc c s i
@@ -205,10 +209,16 @@ Section ABF.
     else vzero (c_nd c).
   (* colvar::update_forces_energy: f = fb = sum of the biases' forces, minus fj with hideJacobian;
      end_of_step: f_old = f *)
+  (* colvarbias::communicate_forces: the force handed to the variables is colvar_forces times the factor
+     read from the scaling grid at the current bin (1 outside that grid or without scaledBiasingForce);
+     it is recorded in previous_colvar_forces *)
+  Definition sfac (c : abf_cfg) (b : idx) : T := if c_scaled c && index_ok c b then c_sfac c b else n1 O.
+  Definition st_fapp (c : abf_cfg) (s : abf_state) (i : abf_in) : vec :=
+    vbuild (c_nd c) (fun k => nmul O (vget (st_fabf c s i) k) (sfac c (st_bin c i))).
   Definition oeff (c : abf_cfg) (i : abf_in) (k : nat) : T := if bget (c_other c) k then vget (i_o i) k else n0 O.
   Definition st_f (c : abf_cfg) (s : abf_state) (i : abf_in) : vec :=
     vbuild (c_nd c) (fun k =>
-      let fb := nadd O (vget (st_fabf c s i) k) (oeff c i k) in
+      let fb := nadd O (vget (st_fapp c s i) k) (oeff c i k) in
       if c_hidej c then nsub O fb (vget (i_j i) k) else fb).
   Definition st_fold (c : abf_cfg) (s : abf_state) (i : abf_in) : vec :=
     vbuild (c_nd c) (fun k => if bget (c_subtract c) k then vget (st_f c s i) k else vget (s_fold s) k).
@@ -220,14 +230,14 @@ Section ABF.
   Definition st_fj (c : abf_cfg) (i : abf_in) : vec := vbuild (c_nd c) (fun k => vget (i_j i) k).
 
   Definition abf_step (c : abf_cfg) (s : abf_state) (i : abf_in) : abf_state * abf_out :=
-    (mkSt (st_cnt c s i) (st_sum c s i) (st_bin c i) (st_bin c i) (st_fabf c s i) (st_ft c s i)
+    (mkSt (st_cnt c s i) (st_sum c s i) (st_bin c i) (st_bin c i) (st_fabf c s i) (st_fapp c s i) (st_ft c s i)
           (st_fold c s i) (st_eng c s i) (st_fj c i) (fst (st_clk s i)) true,
-     mkOut (st_bin c i) (st_fabf c s i) (st_f c s i) (fst (st_clk s i)) (snd (st_clk s i)) (st_ft c s i)).
+     mkOut (st_bin c i) (st_fabf c s i) (st_fapp c s i) (st_f c s i) (fst (st_clk s i)) (snd (st_clk s i)) (st_ft c s i)).
 
   Definition abf_init (c : abf_cfg) : abf_state :=
     let nd := c_nd c in
     mkSt (fun _ => 0) (fun _ => vzero nd) (repeat 0 nd) (repeat 0 nd)
-         (vzero nd) (vzero nd) (vzero nd) (vzero nd) (vzero nd) 0 false.
+         (vzero nd) (vzero nd) (vzero nd) (vzero nd) (vzero nd) (vzero nd) 0 false.
 
   Fixpoint abf_run_from (c : abf_cfg) (s : abf_state) (h : list abf_in) : abf_state * list abf_out :=
     match h with
@@ -255,8 +265,8 @@ Section ABF.
     if c_same_step c then n0 O
     else if negb (cvapply c k) then n0 O
     else if bget (c_subtract c) k then vget (o_f (snd io)) k
-    else if c_hidej c then nsub O (vget (o_fabf (snd io)) k) (vget (i_j (fst io)) k)
-    else vget (o_fabf (snd io)) k.
+    else if c_hidej c then nsub O (vget (o_fapp (snd io)) k) (vget (i_j (fst io)) k)
+    else vget (o_fapp (snd io)) k.
   (* the Jacobian term of the total force (geometric entropy), which hideJacobian removes from the estimate *)
   Definition jac (c : abf_cfg) (io : abf_in * abf_out) (k : nat) : T :=
     if c_hidej c then n0 O else vget (i_j (fst io)) k.
